@@ -365,4 +365,23 @@ theorem inheritance_example :
     ∧ (diamond.find "SubImm").isNone = true := by
   decide
 
+/-- non-vacuity for `@keys_of` with several enum classes: inherited fields count; a member that is
+    not a field is refused whichever enum (first, middle, last) it belongs to -/
+def keysWorld : World :=
+  runSteps exO W0 [
+    .define (plainSrc "A" ["Structure"] [("north", intF), ("south", intF)]),
+    .define { plainSrc "Ok" ["A"] [("admin", intF), ("day", intF)] with
+                keysOf := [["admin"], ["north", "south"], ["day"]] },
+    .define { plainSrc "MissFirst" ["A"] [("admin", intF), ("day", intF)] with
+                keysOf := [["admin", "driver"], ["north", "south"], ["day"]] },
+    .define { plainSrc "MissMiddle" ["Structure"] [("admin", intF), ("north", intF), ("day", intF)] with
+                keysOf := [["admin"], ["north", "south"], ["day"]] },
+    .define { plainSrc "MissLast" ["A"] [("admin", intF)] with
+                keysOf := [["admin"], ["north", "south"], ["day"]] }]
+
+theorem keys_of_example :
+    (keysWorld.find "Ok").isSome = true ∧ (keysWorld.find "MissFirst").isNone = true
+    ∧ (keysWorld.find "MissMiddle").isNone = true ∧ (keysWorld.find "MissLast").isNone = true := by
+  decide
+
 end Typedpy.C14
